@@ -185,7 +185,20 @@ pub fn record(db: &Db, src: &str, id: usize, ids: &Ids, with_tokens: bool) -> Va
         rec["leaves"] = leaves;
         let tree = std::panic::catch_unwind(|| tree_json(src)).ok().flatten();
         rec["tree_ok"] = json!(tree.is_some());
-        rec["tree"] = tree.unwrap_or_else(|| json!([]));
+        // the JSON reader on the TLC side stops at 255 levels of nesting: very deep trees are validated through their leaves only
+        fn depth(v: &Value) -> usize {
+            match v {
+                Value::Array(a) => 1 + a.iter().map(depth).max().unwrap_or(0),
+                Value::Object(o) => 1 + o.get("ch").map(depth).unwrap_or(0),
+                _ => 0,
+            }
+        }
+        let deep = tree.as_ref().map(|t| depth(t) > 200).unwrap_or(false);
+        rec["deep"] = json!(deep);
+        if rec["leaves"].is_null() {
+            rec["leaves"] = json!([]);
+        }
+        rec["tree"] = if deep { json!([]) } else { tree.unwrap_or_else(|| json!([])) };
         rec["toks_ok"] = json!(!rec["toks"].is_null());
         if rec["toks"].is_null() {
             rec["toks"] = json!([]);
